@@ -95,6 +95,8 @@ def _call_expr(c, in_module, prog):
         return "_inner_%s(%s)" % (t, a)
     if form == "arg":
         return "fnarg(%s)" % a
+    if form == "ppartial":  # through a positional partial application
+        return "%s.partial(%s)()" % (t, a)
     if form == "passfn":  # call the target and hand it another function as an argument
         return "%s(%s, fnarg=%s)" % (t, a, c["fn"])
     raise ValueError(form)
